@@ -5,7 +5,7 @@ import re
 
 import vlib
 
-PROPS = ['Rangers.Props.C09', 'Rangers.Props.C09B', 'Rangers.Props.C09C']
+PROPS = ['Rangers.Props.C09', 'Rangers.Props.C09B', 'Rangers.Props.C09C', 'Rangers.Props.C09D', 'Rangers.Props.C09E']
 DRIVERS = ['C09']
 META = dict(
     level='proof',
@@ -18,12 +18,12 @@ META = dict(
                'the model is compared with the implementation on structured, boundary-biased and malformed inputs on every run',
     trusted_base=['Lean 4 kernel', 'gen/cmd/c09facts (go/ast translator)', 'harness/cmd/c09 (Go harness)',
                   'gogo/protobuf v1.3.1 table-driven Marshal/Unmarshal (modelled, compared on every run, not verified)',
-                  'encoding/json (modelled for the header projection and canonical RequestIds maps; decoder of '
-                  'non-canonical JSON and of SubTransactions not modelled)',
+                  'encoding/json (modelled and compared: header projection, string escaping/unquoting, RequestIds maps, '
+                  '[]UserData SubTransactions; whitespace, non-uint64 numbers and partial decoding after type errors not modelled)',
                   'time.MarshalBinary/UnmarshalBinary/MarshalJSON of Go 1.23 (modelled, compared)',
                   'crypto/sha256 (an executable SHA-256 in Lean is compared end to end; no theorem depends on it)'],
     assumptions=['SHA-256 is treated as a function of its input: hash stability is proved on the hash input',
-                 'json.Unmarshal(json.Marshal(x)) = x for []UserData (SubTransactions), sampled by the searcher',
+                 'encoding/json on SubTransactions is modelled for the []UserData grammar (decode + re-render) and compared; idempotence of that re-render is a hypothesis (SubTxStable) of the tx fixed-point theorem',
                  'producible values: non-nil Transactions/EvictedTxs, non-negative ProveValue, zone offsets whose '
                  'seconds part is not negative and that MarshalBinary accepts, RequestIds keys that JSON writes verbatim'],
     rule='distinct op lines (marshal of a generated value / unmarshal of a byte string) answered by both the '
